@@ -28,6 +28,15 @@ CAUGHT = {  # which invariant of which check reports it (quick tier), and whethe
  "C07-p3": ("C07 cost-at-least-bytes-read", True), "C07-p4": ("C07 cost-within-documented-model (Vec<Nat> read at Vec<Int>)", False),
  "C09-p1": ("C09 decode-128-rejects-out-of-range", True), "C09-p2": ("C09 decode-value (MapU8Int)", True),
  "C20-p3": ("C20 generator-no-panic (division by zero)", True), "C20-p4": ("C20 recursion-within-configured-depth (family VT)", False),
+ # fourth round (worktrees /tmp/mut4/<A..D>)
+ "C01-q1": ("C01 roundtrip-decodes (BTreeSet<i8>, Wide)", True), "C01-q2": ("C01 roundtrip-decodes (function references with method names of 128+ bytes)", True),
+ "C03-q3": ("C03 argument-value / roundtrip-decodes (a length of exactly 16384)", False), "C03-q4": ("C03 roundtrip-decodes (second serialize on one builder)", True),
+ "C04-q1": ("C04 accepted-subtype-decodes-native (enumerated pairs: BTreeMap<Int,Int> at Option<BTreeMap<String,Int>>)", True), "C04-q2": ("C04 accepted-subtype-decodes-untyped (vec nat at opt vec nat8)", True),
+ "C05-q4": ("C05 equal-decides-structural-equality", True),
+ "C06-q1": ("C06 decode-no-panic (error-message window past the end of a >2 KiB input)", True), "C06-q2": ("C06 decode-no-panic (multiplication overflow of the skipping penalty)", True),
+ "C07-q3": ("C07 skipped-data-charged-to-skipping-quota", True), "C07-q4": ("C07 skipped-data-charged-to-skipping-quota (blob)", True),
+ "C09-q1": ("C09 decode-value (I128FromNatThen8)", True), "C09-q2": ("C09 encode-minimal / encode-completes", True),
+ "C20-q3": ("C20 generated-value-inhabits-type (same literal configured for several number types)", False), "C20-q4": ("C20 generator-no-panic", True),
 }
 ROUNDS = [("/tmp/mut", "m", (1,2,3)), ("/tmp/mut2", "n", (1,2))]
 for base, pre, ks in ROUNDS:
@@ -84,6 +93,35 @@ for g in "ABCD":
             "breaks_property": p,
             "confirmed_in_scratch_worktree": conf,
             "what_was_run": f"tools/confirm_mutation.sh {src} (patch applies; cargo test --workspace with patch: 219 pass; demo fails with patch, passes without); tools/try_mutation.sh seeded/{p}-p{k}/patch.diff {p} quick",
+            "caught_by": caught,
+            "caught_by_first_version_of_the_checks": first,
+        })
+        json.dump(meta, open(os.path.join(dst, "meta.json"), "w"), indent=1)
+        print("kept", dst)
+
+# fourth round
+for g in "ABCD":
+    for k in (1,2,3,4):
+        src = f"/tmp/mut4/{g}/out/q{k}"
+        if not os.path.isdir(src): continue
+        meta = json.load(open(os.path.join(src, "meta.json")))
+        p = meta["property"]
+        cf = os.path.join(src, "confirm.json")
+        if not os.path.exists(cf):
+            print("not confirmed / not kept:", src); continue
+        conf = json.load(open(cf))
+        if not all(conf.values()):
+            print("NOT kept (confirmation failed):", src, conf); continue
+        dst = f"/verif/seeded/{p}-q{k}"
+        os.makedirs(dst, exist_ok=True)
+        shutil.copy(os.path.join(src, "patch.diff"), dst)
+        for f in glob.glob(os.path.join(src, "*.rs")):
+            shutil.copy(f, dst)
+        caught, first = CAUGHT[f"{p}-q{k}"]
+        meta.update({
+            "breaks_property": p,
+            "confirmed_in_scratch_worktree": conf,
+            "what_was_run": f"tools/confirm_mutation.sh {src} (patch applies; cargo test --workspace with patch: 219 pass; demo fails with patch, passes without); tools/try_mutation.sh seeded/{p}-q{k}/patch.diff {p} quick",
             "caught_by": caught,
             "caught_by_first_version_of_the_checks": first,
         })
